@@ -3,5 +3,5 @@ From Coq Require Import Extraction ExtrOcamlBasic.
 From XV Require Import C04.Spec04 C04.Model04 C04.Inst04.
 Extraction Language OCaml.
 Extraction "../ocaml/C04/gen_c04.ml"
-  mk_reader mk_cfg real_cfg do_op run_ops deliver get_next get_name
+  mk_reader mk_cfg real_cfg do_op run_ops deliver get_next get_name get_ncname get_qname
   spec_decode spec_chars eol_norm name_prefix kCharBufSize kRawBufSize lowWaterDefault line col ccur.
